@@ -435,6 +435,11 @@ def judge(case, obs):
               f"selection relies on was not computed for that candidate")
             break
         qi += 1  # one row, one simulation
+    _judge_flows(case, obs, v, method)
+    return V, label
+
+
+def _judge_flows(case, obs, v, method):
     # ---- C20: with a system flow the per-borehole flow seen by every GHE is V*rho/(1000 nbh)
     if case.get("flow") == "system":
         rho = _LAST["m"]._fluid.rho
@@ -464,7 +469,6 @@ def judge(case, obs):
                 v("C20", "borehole_flow_split_wrong", f"{method}: GHE with {n_} bh built with V_sys={vs}, m_bh={mf}",
                   observed=[vs, mf])
                 break
-    return V, label
 
 
 def judge_rowwise(case, obs, V):
@@ -510,6 +514,7 @@ def judge_rowwise(case, obs, V):
         if abs(r[1] - max(r[2] - world.max_allow, world.min_allow - r[3])) > 1e-12:
             v("C12", "search_log_row_inconsistent", f"rowwise: search log row {r} violates excess=max(max-upper, lower-min)")
             break
+    _judge_flows(case, obs, v, method)
     return V, label
 
 
